@@ -1,4 +1,4 @@
-import Uquic.Proofs.WireHeader
+import Uquic.Proofs.WireLongHeader
 
 /-! `ParseConnectionID` / `ParseArbitraryLenConnectionIDs` agree with the header parsers on the same
     bytes, and return only bytes that are in the buffer. -/
@@ -49,13 +49,6 @@ theorem plh_ids (tb : Nat) (b0 : Bytes) (h : Header) (l : Nat) (e : Option HErr)
 
 theorem getD_drop (b : Bytes) (k i : Nat) : (b.drop k).getD i 0 = b.getD (k + i) 0 := by
   simp [List.getD_eq_getElem?_getD, List.getElem?_drop]
-
-/-- `parseHeader` on a non-empty packet, in terms of `parseLongHeader` -/
-theorem parseHeader_cons (t : UInt8) (b0 : Bytes) :
-    parseHeader (t :: b0) =
-      ({ (parseLongHeader t.toNat b0).1 with parsedLen := (parseLongHeader t.toNat b0).2.1 + 1 },
-       (parseLongHeader t.toNat b0).2.2) := by
-  simp only [parseHeader]
 
 /-- long header: the destination connection ID `ParseConnectionID` extracts (which the server uses to
     route the packet) is the one `parseHeader` returns for the same bytes -/
